@@ -220,7 +220,10 @@ class Package:
         for mod in self.modules.values():
             for st in ast.walk(mod):
                 if isinstance(st, (ast.FunctionDef, ast.AsyncFunctionDef)) and any(isinstance(c, ast.Call) and isinstance(c.func, ast.Name) and c.func.id == "setattr" for c in ast.walk(st)):
-                    scan(fold_static(copy.deepcopy(st)))
+                    try:
+                        scan(fold_static(copy.deepcopy(st)))
+                    except Exception:
+                        scan(st)            # (a setattr with a computed name then counts as "*")
             scan(ast.Module(body=[s for s in mod.body], type_ignores=[]) if not any(
                 isinstance(c, ast.Call) and isinstance(c.func, ast.Name) and c.func.id == "setattr" for c in ast.walk(mod)) else _without_setattr(mod))
         self._touched = touched
